@@ -78,6 +78,9 @@ func (d Dict) Get(key any) any {
 
 // Get_ is comma-ok version of Get.
 func (d Dict) Get_(key any) (value any, ok bool) {
+	if d.Len() == 0 {
+		assertHashable(key) // gomap does not hash the key if the map is empty
+	}
 	return d.m.Get(key)
 }
 
@@ -101,6 +104,9 @@ func (d Dict) Set(key, value any) {
 //
 // Del panics if key's type is not allowed to be used as Dict key.
 func (d Dict) Del(key any) {
+	if d.Len() == 0 {
+		assertHashable(key) // gomap does not hash the key if the map is empty
+	}
 	// see comment in Set about ByteString and container(with ByteString)
 	for {
 		d.m.Delete(key)
@@ -808,6 +814,12 @@ func hash(seed maphash.Seed, x any) uint64 {
 
 unhashable:
 	panic(fmt.Sprintf("unhashable type: %T", x))
+}
+
+
+// assertHashable panics with "unhashable type: ..." if x is not allowed to be used as Dict key.
+func assertHashable(x any) {
+	hash(maphash.MakeSeed(), x)
 }
 
 
